@@ -4,7 +4,7 @@
 Sensitivity measurement: applies small syntactic mutations (relational / arithmetic operator swaps,
 constants +-1, boolean flips, dropped single-line statements) to one source file of /repo, runs the
 registered quick check of <property> against each and records killed (exit 1) / survived (exit 0)
-/ invalid (exit 2: does not compile or harness error). /repo is restored after every mutant.
+/ invalid (exit 2: does not compile or harness error). the repository (VERIF_REPO, default /repo) is restored after every mutant. With VERIF_HOME / VERIF_REPO pointing at a shadow copy of /verif (sim/Cargo.toml path dependencies rewritten) and a scratch worktree, a campaign runs without touching /repo.
 Writes /verif/out/micromut_<property>_<file>.json ; survivors are listed for inspection
 (equivalent mutants and mutants outside the claimed clause are expected among them)."""
 import json, os, re, subprocess, sys, time
@@ -23,7 +23,9 @@ while i < len(args):
         k, v = args[i + 1].split("=", 1); env[k] = v; i += 2
     else:
         i += 1
-full = os.path.join("/repo", path)
+REPO = os.environ.get("VERIF_REPO", "/repo")
+HOME = os.environ.get("VERIF_HOME", "/verif")
+full = os.path.join(REPO, path)
 orig = open(full).read()
 lines = orig.split("\n")
 
@@ -75,7 +77,7 @@ try:
         mutated = lines[:]
         mutated[ln - 1] = new
         open(full, "w").write("\n".join(mutated))
-        r = subprocess.run(["./check", prop, "--tier", "quick"], cwd="/verif", capture_output=True, text=True, env=env, timeout=3600)
+        r = subprocess.run(["./check", prop, "--tier", "quick"], cwd=HOME, capture_output=True, text=True, env=env, timeout=3600)
         verdict = {0: "survived", 1: "killed"}.get(r.returncode, "invalid")
         cls = [l.split("class=")[1] for l in r.stdout.splitlines() if l.startswith("VIOLATION") and "class=" in l][:2]
         results.append({"line": ln, "mutation": desc, "original": lines[ln - 1].strip(), "mutated": new.strip(), "verdict": verdict, "classes": cls})
@@ -86,7 +88,7 @@ k = sum(1 for r in results if r["verdict"] == "killed")
 s = sum(1 for r in results if r["verdict"] == "survived")
 inv = sum(1 for r in results if r["verdict"] == "invalid")
 out = {"file": path, "property": prop, "mutants": len(results), "killed": k, "survived": s, "invalid": inv, "wall_s": round(time.time() - t0), "results": results}
-os.makedirs("/verif/out", exist_ok=True)
-name = f"/verif/out/micromut_{prop}_{os.path.basename(path)}.json"
+os.makedirs(f"{HOME}/out", exist_ok=True)
+name = f"{HOME}/out/micromut_{prop}_{os.path.basename(path)}.json"
 json.dump(out, open(name, "w"), indent=1)
 print(f"killed {k} survived {s} invalid {inv} -> {name}")
